@@ -116,6 +116,7 @@ func TestVerifC05(t *testing.T) {
 		for _, s := range scns {
 			w.Replay(level, s)
 		}
+		c05ReplayVForms(t, w, rp)
 		return
 	}
 	if cd := os.Getenv("VERIF_CORPUS"); cd != "" {
@@ -129,6 +130,7 @@ func TestVerifC05(t *testing.T) {
 			for _, s := range scns {
 				w.Replay(level, s)
 			}
+			c05ReplayVForms(t, w, fn)
 		}
 	}
 	good := storage.VerifC05Req{Kind: "preauth", ID: "s1", Want: "clientA", Pre: true, Post: true}
@@ -173,5 +175,7 @@ func TestVerifC05(t *testing.T) {
 		s.Sched = []int{-dt, 0, 0, 0, 0, -1, 1, 1, 1, 1}
 		w.Replay(level, s)
 	}
+	// request-level leg: issuing calls and token requests served one after the other (op "vforms")
+	c05VForms(t, w, rng, thorough)
 	t.Logf("C05 vci harness: %d runs, %d goroutine dumps, %d diverged re-executions repeated", w.Runs, w.Dumps, storage.VerifC05Diverged)
 }
